@@ -27,6 +27,8 @@ RULE = (
     'under the same parent and a name-addressed operation (rm, reset, trace) '
     'targets the shorter one, or ids/run IDs reach two digits. Distinct = '
     'SHA-1 of case JSON.'
+    ' visit: the process closes the database, fills another one with the sa'
+    'me catalogue names in the opposite order, closes it and comes back. '
 )
 ASSUMPTIONS = [
     'shelve backend only; names contain neither "." nor the reserved '
